@@ -129,7 +129,13 @@ func normalizePercentEncoding(s string) string {
 			}
 			i += 3
 		} else {
-			b.WriteByte(s[i])
+			if s[i] >= utf8.RuneSelf {
+				// raw non-ASCII octets are percent-encoded: keys stay ASCII, so
+				// they survive the JSON variant index unchanged
+				b.WriteString(percentEncodeUpper(s[i]))
+			} else {
+				b.WriteByte(s[i])
+			}
 			i++
 		}
 	}
